@@ -51,7 +51,7 @@ PROPS = {
                      "reference); all 128 option words on both encodings must throw NotImplementedException unless implemented; "
                      "non-trivial = L(A) non-empty",
                 assumptions=PROOF_ASSUME),
-    "C08": dict(level="proof", cli=dict(kinds=[("cliop_c08", 1)], quick=150, thorough=4000), kinds=[("bddh", 12), ("bddtd", 2), ("ordvec", 1), ("glue", 1)], n=dict(quick=2900, thorough=200000, search=3000),
+    "C08": dict(level="proof", cli=dict(kinds=[("cliop_c08", 1)], quick=150, thorough=4000), kinds=[("bddh", 12), ("bddtd", 2), ("ordvec", 1), ("glue", 1), ("bddpre", 4)], n=dict(quick=3400, thorough=200000, search=3000),
                 rule="histories over a pool of automata in one BDD encoding (bottom-up or top-down): load from Timbuk text, "
                      "copy, assign, destroy, load into an existing automaton (AddTransition on a possibly shared table), "
                      "SetStateFinal, Union, UnionDisjointStates, Intersection, RemoveUnreachableStates, RemoveUselessStates; "
